@@ -84,6 +84,11 @@ def c16(ctx, finish):
         checkmain.do_mc(ctx, inst, ["C16_Store", "C03_StateAndOrder"], [])
         if not ctx.violations:
             checkmain.do_gen(ctx, inst, 1200 if q else 15000)
+        if not ctx.violations:      # a selector subscription unsubscribed while notifications are in flight
+            inst2 = families.life(ctx.tier, "sel")
+            checkmain.do_mc(ctx, inst2, ["C16_Store", "C09_SilentAfter"], [])
+            if not ctx.violations:
+                checkmain.do_gen(ctx, inst2, 800 if q else 15000)
         if not ctx.violations:
             checkmain.do_free(ctx, families.sel_store(ctx.tier, big=True), 100 if q else 1000)
     return finish(ctx, {"exhaustive": True})
